@@ -22,6 +22,12 @@ NOTE_W = ("Trusted: MIR pretty-printer, the event extractor, the RC11 encoding (
           "more than R = 2N+1 retry iterations and more than N overlapping publications are outside the claim.")
 
 CHECKS = {
+    'C01': ('M+C', "Composition query over code-derived relations: for every sequence of 1..2 (quick) / 1..3 (thorough) daemon steps over {report with arbitrary wire values, PHC term and timing; silence within / beyond "
+                   "grace; daemon restart}, the real extract_bound_from_tracking + ShmUpdater + FSM relation (daemon MIR) and the real compute_bound_at relation (shm MIR) are conjoined with the physical "
+                   "assumptions A1 (valid chrony numbers for synchronised fresh reports), A2 (bounded drift), A3 (exact clock instants): no client call on any publication, at any later instant, obtains a "
+                   "Synchronized/FreeRunning interval that excludes true time (tolerance 3 ns + 2^-47 relative). Transport and ordering facts are those decided by C02-C04 and C12 on the same tree.",
+            "Trusted: the MIR translator and z3 for both halves; the physical assumptions; the interface facts (each decided by its own check). max_drift_ppb ranges over a small set of constants so that all "
+            "products are exact linear arithmetic. Longer gaps between measurement and client than the bounded history are covered by C08's inductive step, not by this query.", TECH_M + "; one composition query per history shape with ghost true-time variables"),
     'C02': ('W', "Every RC11 execution of the bounded program (N <= 2 quick / 4 thorough publications overlapping one snapshot() call, retry loop unrolled 2N+1 times, "
                  "any start generation, any reader cache state): no accepted snapshot mixes words of two publications or returns a never-completed record.", NOTE_W, TECH_W),
     'C03': ('W', "Every RC11 execution of M successive snapshot() calls against N publications plus one call ordered after the writer went idle: returned publications "
